@@ -25,6 +25,9 @@ type C13Plan struct {
 	Mode      string    `json:"mode"` // crash | error | diskfull
 	Workers   int       `json:"workers"`
 	SchedSeed uint64    `json:"sched_seed"`
+	// PruneBetween (crash mode): the pre-state holds an unreachable commit, and `wrgl prune` runs on
+	// every crash state before the operation is repeated
+	PruneBetween bool `json:"prune_between,omitempty"`
 }
 
 var c13Ops = []string{"commit-existing", "commit-new", "merge-ff", "merge-noff", "merge-real", "prune", "fetch", "pull", "fetch", "pull", "merge-shallow-ff", "merge-shallow-noff"}
@@ -75,6 +78,7 @@ func init() {
 			p.Base = SynthSpec{N: Pick(r, []int{1, 3, 8, 30, 255, 256, 300, 520}), NCols: r.Range(2, 4), Seed: r.Uint64()}
 			cols, pk, _ := p.Base.Build()
 			p.E1, p.E2 = genDisjointEdits(r.Sub("edits"), cols, pk, p.Base.N)
+			p.PruneBetween = p.Mode == "crash" && p.Op != "prune" && !strings.HasPrefix(p.Op, "merge-shallow") && r.Chance(0.3)
 			return p
 		},
 		Exec: execC13,
@@ -246,6 +250,13 @@ func execC13(t *testing.T, raw json.RawMessage, res *Result) {
 		}
 		opArgs = []string{"prune"}
 	}
+	if p.PruneBetween {
+		// something for prune to do: a commit no ref reaches
+		fd := n.WriteFile("doomed.csv", CSVText(cols, rows2, ','))
+		if !must("commit", "doomed", fd, "doomed", "-p", pkArg) || !must("branch", "delete", "doomed") {
+			return
+		}
+	}
 	pre := n.Capture()
 	runOp := func() CLIResult {
 		n.Clock += time.Hour
@@ -377,7 +388,32 @@ func execC13(t *testing.T, raw json.RawMessage, res *Result) {
 			}
 			if k < m {
 				n.Restore(st)
-				if !checkRerun(describe(k)) {
+				when := describe(k)
+				if p.PruneBetween {
+					n.Clock += time.Hour
+					pr := n.Run(t, "prune")
+					if pr.Out.PanicVal != nil || pr.Out.Deadlock {
+						res.Violate("prune-panic", "%s: `wrgl prune` on the crash state panicked/deadlocked: %v\n%s", when, pr.Out.PanicVal, trimStack(pr.Out.PanicStack))
+						return
+					}
+					if pr.Err != nil {
+						res.Violate("prune-failed", "%s: `wrgl prune` on the crash state failed: %v", when, pr.Err)
+						return
+					}
+					now := n.Capture()
+					prefs, err := RefsOf(now.RefDB)
+					if err != nil {
+						res.Violate("crash:refdb-unreadable", "%s, then prune: %v", when, err)
+						return
+					}
+					if c, d := CheckRepoInvariants(now.Objs, prefs); c != "" {
+						res.Violate("pruned-crash-state:"+c, "%s, then `wrgl prune`: %s", when, d)
+						return
+					}
+					when += ", then `wrgl prune`"
+					res.probe("prune_between_crash_and_rerun", 1)
+				}
+				if !checkRerun(when) {
 					return
 				}
 			}
